@@ -118,7 +118,19 @@ impl BlockSource for SimSource {
     }
 }
 
-type Listener = Arc<(Arc<Gatekeeper>, Arc<(Arc<Watcher>, Arc<Responder>)>)>;
+/// First listener of the chain monitor: reports the blocks handed to the tower (connect / disconnect)
+/// to `evlog`; the three real listeners follow in main.rs's order.
+pub struct BlockLog;
+impl lightning::chain::Listen for BlockLog {
+    fn filtered_block_connected(&self, header: &bitcoin::block::Header, _txdata: &lightning::chain::transaction::TransactionData, height: u32) {
+        crate::evlog::push(&format!("BC:{}:{}", header.block_hash(), height));
+    }
+    fn block_disconnected(&self, header: &bitcoin::block::Header, height: u32) {
+        crate::evlog::push(&format!("BD:{}:{}", header.block_hash(), height));
+    }
+}
+
+type Listener = Arc<(Arc<BlockLog>, Arc<(Arc<Gatekeeper>, Arc<(Arc<Watcher>, Arc<Responder>)>)>)>;
 type Monitor = ChainMonitor<'static, ChainPoller<Box<SimSource>, SimSource>, UnboundedCache, Listener>;
 
 enum Cmd {
@@ -136,7 +148,8 @@ pub struct MonitorThread {
 
 impl MonitorThread {
     pub fn spawn(source: SimSource, tip: ValidatedBlockHeader, w: &World) -> MonitorThread {
-        let listener: Listener = Arc::new((w.gatekeeper.clone(), Arc::new((w.watcher.clone(), w.responder.clone()))));
+        let listener: Listener =
+            Arc::new((Arc::new(BlockLog), Arc::new((w.gatekeeper.clone(), Arc::new((w.watcher.clone(), w.responder.clone()))))));
         let dbm = w.dbm.clone();
         let reachable = w.reachable.clone();
         let (tx, rx) = mpsc::channel::<Cmd>();
@@ -191,18 +204,22 @@ pub struct SimChain {
     /// active chain: (abstract hash id, block hash), index = height
     pub active: Vec<(u64, BlockHash)>,
     pub next_hash: u64,
+    /// every block ever mined (or given initially): abstract hash id and abstract transaction ids
+    pub ids: HashMap<BlockHash, (u64, Vec<u64>)>,
 }
 
 impl SimChain {
     pub fn from_init(init: &[(u64, Block)]) -> SimChain {
         let source = SimSource::default();
         let mut active = Vec::new();
+        let mut ids = HashMap::new();
         for (h, (id, b)) in init.iter().enumerate() {
             source.add_block(b.clone(), h as u32);
             active.push((*id, b.header.block_hash()));
+            ids.insert(b.header.block_hash(), (*id, vec![]));
         }
         source.set_best(active.last().unwrap().1);
-        SimChain { source, active, next_hash: 3000 }
+        SimChain { source, active, next_hash: 3000, ids }
     }
 
     pub fn height(&self) -> u32 {
@@ -228,6 +245,7 @@ impl SimChain {
         let block = make_block(prev, 1_800_000_000 + height, id as u32, real);
         let hash = block.header.block_hash();
         self.source.add_block(block, height);
+        self.ids.insert(hash, (id, txs.to_vec()));
         self.active.push((id, hash));
         self.source.set_best(hash);
         id
